@@ -1,6 +1,7 @@
 package bip39
 
 import (
+	"unicode/utf8"
 	"crypto/hmac"
 	"crypto/sha256"
 	"crypto/sha512"
@@ -166,19 +167,24 @@ func runF(op string, in M) (M, M) {
 		p := vCatch(func() { RegisterWordList(lang, func() wordlist.List { return &customList{ws} }) })
 		return M{"panic": p}, M{}
 	case "bip39.EntropyToMnemonic":
-		ent := vBytes(in["entropy"])
+		ent := vBuf("EntropyToMnemonic entropy", in["entropy"]) // the caller's buffer, reused by later calls
 		keep := append([]byte{}, ent...)
 		var m Mnemonic
 		var err error
 		p := vCatch(func() { m, err = EntropyToMnemonic(ent) })
 		out := M{"ok": err == nil && p == "", "err": errKind(err), "words": wordsOut(m), "panic": p, "unmodified": string(keep) == string(ent)}
-		return out, shaFacts(ent)
+		f := shaFacts(ent)
+		for i := range m { // the caller owns the returned sentence
+			m[i] = "overwritten"
+		}
+		return out, f
 	case "bip39.MnemonicToEntropy":
 		ws := wordsIn(in["words"])
 		var ent []byte
 		var err error
 		p := vCatch(func() { ent, err = MnemonicToEntropy(ws) })
 		out := M{"ok": err == nil && p == "", "err": errKind(err), "entropy": vInts(ent), "panic": p}
+		vOwnOrKeep("MnemonicToEntropy result", ent)
 		return out, shaFacts(candidate(ws))
 	case "bip39.MnemonicToSeed":
 		ws := wordsIn(in["words"])
@@ -187,11 +193,15 @@ func runF(op string, in M) (M, M) {
 		var err error
 		p := vCatch(func() { seed, err = MnemonicToSeed(ws, pass) })
 		out := M{"ok": err == nil && p == "", "err": errKind(err), "seed": vInts(seed), "panic": p}
+		vOwnOrKeep("MnemonicToSeed result", seed) // e.g. wiped by the caller after use
 		f := shaFacts(candidate(ws))
 		nf := norm.NFKD.String(pass)
 		pw := []byte(strings.Join(ws, " "))
 		salt := []byte("mnemonic" + nf)
 		f["nfkd_in"], f["nfkd"] = vInts([]byte(pass)), vInts([]byte(nf))
+		// "any Unicode string": byte strings that are not valid UTF-8 are outside C09's domain; so are the rare strings on
+		// which libraries legitimately differ (x/text inserts U+034F after 30 combining marks, plain NFKD does not)
+		out["pass_in_domain"] = utf8.ValidString(pass) && strings.Count(nf, "\u034f") == strings.Count(pass, "\u034f")
 		f["pbkdf_pw"], f["pbkdf_salt"] = vInts(pw), vInts(salt)
 		f["pbkdf_out"] = vInts(pbkdf2Ref(pw, salt))
 		return out, f
